@@ -12,6 +12,37 @@ COMMON_ASSUME = [
 ]
 
 PROPS = {
+    "C07": {
+        "rule": "cases = (content size n, include_self) handed to the private create_pkg_length through the cfg hook; "
+                "quick: every n < 70000 in both forms, +-64 around 2^12, 2^20, 2^28, 200000 random n < 2^28, 20 sizes beyond 2^28; "
+                "thorough: every n < 2^28 in both forms; distinct = distinct (n, form); every case is non-trivial",
+        "exhaustive": {"quick": False, "thorough": True},
+        "exhaustive_note": "thorough sweeps the whole domain 0 <= n < 2^28 in the inclusive and the exclusive form",
+        "assumptions": COMMON_ASSUME + ["the object kinds' call sites pass their body length: covered by the C06 term-level correspondence"],
+    },
+    "C08": {
+        "rule": "cases = (carrier type, value); u8 and u16 exhaustively through every type able to carry the value; "
+                "all 2^k +-2, byte fills, u64::MAX-3.., random values of random bit width (100k quick / 1M thorough) through "
+                "every wide-enough type; thorough adds all u32 through u32/u64/usize; distinct = distinct (type, value)",
+        "exhaustive": {"quick": False, "thorough": False},
+        "exhaustive_note": "u8/u16 domains exhaustive in both tiers, u32 exhaustive in thorough; u64/usize sampled",
+        "assumptions": COMMON_ASSUME,
+    },
+    "C09": {
+        "rule": "cases = path text handed to Path::new, then serialised; every segment count 1..255 (+ 256..1000) rooted or not, "
+                "each of the 4 positions over its alphabet, random paths, malformed: a segment of length 0..3/5..8 at every "
+                "position of paths of 1..5 segments, dot/backslash oddities, non-alphabet segments; distinct = distinct text",
+        "exhaustive": {"quick": False, "thorough": False},
+        "assumptions": COMMON_ASSUME + ["strings are modelled as byte lists (Path::new is byte-level); inputs are valid UTF-8"],
+    },
+    "C16": {
+        "rule": "cases = EISA id text / UUID text; quick: every position over its alphabet x 3 backgrounds + 300k random ids, "
+                "every UUID nibble position x 22 hex characters + 40k random UUIDs in mixed case; malformed = one-position "
+                "mutants and length +-1; thorough: all 26^3*16^4 EISA ids; distinct = distinct text",
+        "exhaustive": {"quick": False, "thorough": False},
+        "exhaustive_note": "thorough enumerates the whole valid-EISA-id domain (26^3 * 16^4); UUIDs are sampled",
+        "assumptions": COMMON_ASSUME + ["EISA/UUID models cover ASCII input (chars() = bytes); non-ASCII input is outside the model"],
+    },
     "C17": {
         "rule": "cases = operation sequences on a fresh Checksum; 256 exhaustive cases (every state x every byte for "
                 "add/sub and their inverses) + random sequences of 1..40 ops (add/sub/append/delete/sink byte,word,"
